@@ -2,20 +2,27 @@ package rules
 
 import (
 	"fmt"
+	"go/token"
 	"os"
+	"regexp"
 	"sort"
+	"strings"
 
 	"golang.org/x/tools/go/ssa"
 
 	"wtfverif/checker/internal/bounds"
+	"wtfverif/checker/internal/interval"
 	"wtfverif/checker/internal/load"
+	"wtfverif/checker/internal/ssau"
 	"wtfverif/checker/internal/symx"
 )
 
 func init() {
 	register(&Rule{
-		Prop:        "C10",
-		Explanation: "draft",
+		Prop: "C10",
+		Explanation: "Totality decided as the absence of every way the engine can stop other than by returning, over the VTA call-graph closure of the load functions, every search entry point, GetSuggestions and the recovery searches: (O-1) no reachable panic/os.Exit/log.Fatal; (O-2) every MustCompile pattern is a constant that compiles; (O-3) every string handed to the third-party fuzzy matcher as a candidate comes out of a NUL-removing function (the matcher indexes past its pattern on a NUL); (O-4) LoadDatabase hands each failing step's error to the classifier under its own operation, the classifier gives a decode failure the parse verdict before looking at anything else and recognises a missing file through the error chain, and a successful read+decode returns the database with a nil error; (O-5) every reachable loop is a range loop or a counted loop towards a loop-invariant bound and the reachable call graph is acyclic; (O-6) every implicit run-time check (index, slice bound, make size, integer divisor, single-result type assertion) is proven safe for all parameter values by overflow-aware interval analysis with parameter ranges gathered from all call sites, symbolic index<len facts from guards and loop headers matched through versioned renderings, location-class invariants (what is ever stored in a field, in the keys/values of the maps of one origin, in a local slice), library contracts (fuzzy Match.Index < len(data), sort.Slice callback indices), and six named data-structure invariants whose construction sites are re-checked on every run.",
+		NotDecided: []string{"nil dereferences (left to the type structure: optional pointers are nil-checked at their uses by inspection, not by this check)", "panics inside third-party code other than the matcher's NUL defect (yaml decoder, cobra)", "running time beyond loop shape: no bound in seconds is derived", "memory exhaustion by a large but well-formed database file"},
+		Assumptions: []string{"no slice, string or map holds more than 2^48 elements", "a counter stepped by a small constant does not wrap (2^43 steps are not reachable)", "objects are not used before their constructor returns or concurrently with it", "fuzzy.Find returns Match.Index in [0, len(data)); sort.Slice calls less only with valid indices", "the index structures are rebuilt whenever the command list changes (decided under C03)"},
 		Run:         runC10,
 	})
 }
@@ -46,10 +53,19 @@ func c10Roots(c *Ctx) []*ssa.Function {
 
 func runC10(c *Ctx) {
 	r := c.R
-	r.Rule("O-1", "anchors")
-	r.Rule("O-6", "implicit run-time checks cannot fail")
+	r.Rule("O-1", "no deliberate crash: no call of panic, os.Exit, log.Fatal*/Panic* or runtime.Goexit is reachable from load, a search entry point, suggestions or the recovery searches")
+	r.Rule("O-2", "every regular expression compiled with MustCompile anywhere in shipped code is a constant that compiles (RE2: matching is linear in the input)")
+	r.Rule("O-3", "every candidate string handed to the third-party fuzzy matcher has passed a NUL-removing function: the matcher indexes past its pattern on a NUL inside a candidate")
+	r.Rule("O-4", "load errors are classified by what failed: a failed read that is fs.ErrNotExist is reported with the not-found constructor, a failed decode always with the parse constructor, and a successful read and decode returns the database with a nil error")
+	r.Rule("O-5", "no runaway: every loop reachable from the entry points is a range loop or a counted loop whose counter moves towards a loop-invariant bound, and the reachable call graph has no recursion")
+	r.Rule("O-6", "no implicit run-time check can fail: every index, slice bound, make size, integer division and single-result type assertion reachable from the entry points is proven safe for all parameter values (overflow-aware intervals with parameter ranges from the call sites; symbolic index < len facts from guards and loop headers; location-class invariants; named data-structure invariants re-checked at their construction sites)")
 	roots := c10Roots(c)
 	scope := reachClosure(c, roots)
+	r.Floor("O-1", "functions reachable from the entry points", len(scope), 100)
+	c10Exits(c, scope)
+	c10Regex(c)
+	c10Classify(c)
+	c10Termination(c, scope)
 	sx := symx.New(c.P.IsRepoFunc)
 	eng := bounds.New(sx, c.P.CallGraph(), c.P.IsRepoFunc)
 	for _, fn := range roots {
@@ -62,6 +78,7 @@ func runC10(c *Ctx) {
 	}
 	eng.InScope = func(fn *ssa.Function) bool { return isShipped(c, fn) }
 	k := newC10k(c, eng)
+	c10Matcher(c, k)
 	eng.NonNegOf = k.nonNegOf
 	eng.BoundedOf = k.boundedOf
 	eng.UpperOf = k.upperOf
@@ -120,4 +137,684 @@ func runC10(c *Ctx) {
 		r.Analysed["sites_"+kk+"_proven"] = v[1]
 	}
 	r.Analysed["functions_in_scope"] = len(scope)
+}
+
+// c10Exits: O-1.
+func c10Exits(c *Ctx, scope []*ssa.Function) {
+	r := c.R
+	isExit := func(n string) bool {
+		switch {
+		case n == "builtin.panic", n == "os.Exit", n == "runtime.Goexit":
+			return true
+		case strings.HasPrefix(n, "log.Fatal"), strings.HasPrefix(n, "log.Panic"):
+			return true
+		case strings.HasPrefix(n, "(*log.Logger).Fatal"), strings.HasPrefix(n, "(*log.Logger).Panic"):
+			return true
+		}
+		return false
+	}
+	n := 0
+	for _, fn := range scope {
+		ord := newOrdinal()
+		ssau.ForEachInstr(fn, false, func(in ssa.Instruction) {
+			if pn, ok := in.(*ssa.Panic); ok {
+				n++
+				r.Bad("O-1", ord.next(load.FuncKey(fn)+"#panic"), c.P.Pos(pn.Pos()), "an explicit panic is reachable from a load or search entry point")
+				return
+			}
+			if call := ssau.AsCall(in); call != nil && isExit(ssau.CallName(call)) {
+				n++
+				r.Bad("O-1", ord.next(load.FuncKey(fn)+"#"+ssau.CallName(call)), c.P.Pos(in.Pos()), ssau.CallName(call)+" is reachable from a load or search entry point: the engine would end the process instead of returning an error")
+			}
+		})
+	}
+	// positive control: the matcher recognises the exits that do exist in shipped code
+	control := 0
+	for _, fn := range shippedFuncs(c) {
+		ssau.ForEachInstr(fn, false, func(in ssa.Instruction) {
+			if _, ok := in.(*ssa.Panic); ok {
+				control++
+			}
+			if call := ssau.AsCall(in); call != nil && isExit(ssau.CallName(call)) {
+				control++
+			}
+		})
+	}
+	r.Floor("O-1", "process exits recognised somewhere in shipped code (control)", control, 1)
+	if n == 0 {
+		r.OK("O-1", "engine#no-deliberate-crash", "", fmt.Sprintf("%d reachable functions: none panics or exits (%d such calls exist elsewhere in shipped code)", len(scope), control))
+	}
+}
+
+// c10Regex: O-2.
+func c10Regex(c *Ctx) {
+	r := c.R
+	n := 0
+	for _, fn := range shippedFuncs(c) {
+		ord := newOrdinal()
+		ssau.ForEachInstr(fn, false, func(in ssa.Instruction) {
+			call, ok := in.(*ssa.Call)
+			if !ok {
+				return
+			}
+			nm := ssau.CallName(call)
+			if nm != "regexp.MustCompile" && nm != "regexp.MustCompilePOSIX" {
+				return
+			}
+			n++
+			key := ord.next(load.FuncKey(fn) + "#" + nm)
+			pat, isC := ssau.ConstString(call.Common().Args[0])
+			if !isC {
+				r.Bad("O-2", key, c.P.Pos(call.Pos()), "MustCompile of a pattern that is not a constant: a pattern that does not compile panics")
+				return
+			}
+			var err error
+			if nm == "regexp.MustCompile" {
+				_, err = regexp.Compile(pat)
+			} else {
+				_, err = regexp.CompilePOSIX(pat)
+			}
+			r.Check(err == nil, "O-2", key, c.P.Pos(call.Pos()), "constant pattern compiles: "+pat, fmt.Sprintf("the constant pattern %q does not compile: MustCompile panics (%v)", pat, err))
+		})
+	}
+	r.Floor("O-2", "MustCompile sites", n, 20)
+}
+
+// c10Matcher: O-3.
+func c10Matcher(c *Ctx, k *c10k) {
+	r := c.R
+	nulFree := k.withLeaf("nul-free", func(fn *ssa.Function, v ssa.Value, _ *ssa.BasicBlock) bool {
+		switch x := v.(type) {
+		case *ssa.Const:
+			s, ok := ssau.ConstString(x)
+			return ok && !strings.Contains(s, "\x00")
+		case *ssa.Call:
+			g := x.Common().StaticCallee()
+			return g != nil && c.P.IsRepoFunc(g) && removesNUL(g)
+		}
+		return false
+	})
+	n := 0
+	for _, fn := range shippedFuncs(c) {
+		ord := newOrdinal()
+		ssau.ForEachInstr(fn, false, func(in ssa.Instruction) {
+			call, ok := in.(*ssa.Call)
+			if !ok {
+				return
+			}
+			nm := ssau.CallName(call)
+			if !strings.HasPrefix(nm, "github.com/sahilm/fuzzy.Find") {
+				return
+			}
+			n++
+			key := ord.next(load.FuncKey(fn) + "#matcher-data")
+			if nm != "github.com/sahilm/fuzzy.Find" && nm != "github.com/sahilm/fuzzy.FindNoSort" {
+				r.Bad("O-3", key, c.P.Pos(call.Pos()), "the matcher is fed through a Source: its strings cannot be traced to the NUL-removing function")
+				return
+			}
+			r.Check(nulFree.elemsNonNeg(call.Common().Args[1], 0), "O-3", key, c.P.Pos(call.Pos()), "every candidate is the result of a NUL-removing function", "a candidate string reaches the fuzzy matcher without passing a NUL-removing function: a NUL inside command or description text makes the matcher index past the end of its pattern (index out of range)")
+		})
+	}
+	r.Floor("O-3", "fuzzy matcher call sites", n, 2)
+}
+
+// removesNUL: every return of g is free of NUL characters: the parameter
+// under a dominating "contains no NUL" test, or strings.ReplaceAll(p, "\x00",
+// <NUL-free constant>).
+func removesNUL(g *ssa.Function) bool {
+	if len(g.Params) != 1 || g.Signature.Results().Len() != 1 {
+		return false
+	}
+	p := g.Params[0]
+	cd := ssau.ControlDeps(g)
+	for _, ret := range ssau.ReturnsOf(g) {
+		v := ret.Results[0]
+		if v == ssa.Value(p) {
+			ok := false
+			for _, d := range ssau.TransitiveControlDeps(cd, ret.Block()) {
+				op, x, y, isC := ssau.CondOf(d.If().Cond)
+				if !isC {
+					continue
+				}
+				call, isCall := x.(*ssa.Call)
+				k0, isK := ssau.ConstInt(y)
+				if !isCall || !isK || k0 != 0 {
+					continue
+				}
+				nm := ssau.CallName(call)
+				if nm != "strings.IndexByte" && nm != "strings.IndexRune" {
+					continue
+				}
+				a := call.Common().Args
+				if a[0] != ssa.Value(p) {
+					continue
+				}
+				if z, isZ := ssau.ConstInt(a[1]); !isZ || z != 0 {
+					continue
+				}
+				// IndexByte(p, 0) < 0 on the taken edge
+				if (op == token.LSS && d.Then) || (op == token.GEQ && !d.Then) {
+					ok = true
+				}
+			}
+			if !ok {
+				return false
+			}
+			continue
+		}
+		call, ok := v.(*ssa.Call)
+		if !ok || ssau.CallName(call) != "strings.ReplaceAll" {
+			return false
+		}
+		a := call.Common().Args
+		old, ok1 := ssau.ConstString(a[1])
+		nw, ok2 := ssau.ConstString(a[2])
+		if a[0] != ssa.Value(p) || !ok1 || !ok2 || old != "\x00" || strings.Contains(nw, "\x00") {
+			return false
+		}
+	}
+	return true
+}
+
+// c10Classify: O-4.
+func c10Classify(c *Ctx) {
+	r := c.R
+	ld := c.P.Func("internal/database", "", "LoadDatabase")
+	cl := c.P.Func("internal/errors", "", "NewDatabaseErrorWithContext")
+	if !r.Anchor("O-4", "database.LoadDatabase", ld != nil) || !r.Anchor("O-4", "errors.NewDatabaseErrorWithContext", cl != nil) {
+		return
+	}
+	fk := "database.LoadDatabase"
+	errIdx := 1
+	// each failing step returns the classifier's verdict for its own operation and error
+	for _, step := range []struct{ callee, op string }{{"os.ReadFile", "read"}, {"gopkg.in/yaml.v3.Unmarshal", "parse"}} {
+		calls := callsTo(ld, step.callee)
+		if len(calls) != 1 {
+			r.Bad("O-4", fk+"#"+step.op+"-step", c.P.Pos(ld.Pos()), fmt.Sprintf("%d calls of %s (want 1)", len(calls), step.callee))
+			continue
+		}
+		call := calls[0]
+		ev := errValue(call)
+		_, fail := nilTests(ev)
+		succ, _ := nilTests(ev)
+		good := len(fail) > 0
+		detail := ""
+		// every return reachable through the failure edge only (not through the success edge)
+		n := 0
+		for _, ret := range ssau.ReturnsOf(ld) {
+			if reachAvoidBB(call.Block(), ret.Block(), fail, nil) || call.Block() == ret.Block() {
+				continue // reachable without the failure edge: not this step's error return
+			}
+			if !reachAvoidBB(call.Block(), ret.Block(), succ, nil) {
+				continue
+			}
+			n++
+			rv := ssau.ResultValue(ret, errIdx)
+			cc, ok := rv.(*ssa.Call)
+			if !ok || ssau.CallName(cc) != ssau.FuncName(cl) {
+				good, detail = false, "the error returned at "+c.P.Pos(ret.Pos())+" is not the classifier's verdict"
+				continue
+			}
+			a := cc.Common().Args
+			if op, ok := ssau.ConstString(a[0]); !ok || op != step.op {
+				good, detail = false, fmt.Sprintf("the failed %s is classified under operation %q", step.op, op)
+			}
+			if a[2] != ev {
+				good, detail = false, "the classifier is not given the error of the failed "+step.op
+			}
+		}
+		if n == 0 {
+			good, detail = false, "no return on the failure of "+step.callee
+		}
+		r.Check(good, "O-4", fk+"#"+step.op+"-failure-classified", c.P.Pos(call.Pos()), "a failed "+step.op+" returns NewDatabaseErrorWithContext(\""+step.op+"\", file, err)", detail)
+	}
+	// success: after both steps succeeded every return carries a nil error and a database
+	{
+		um := callsTo(ld, "gopkg.in/yaml.v3.Unmarshal")
+		if len(um) == 1 {
+			_, fail := nilTests(errValue(um[0]))
+			good, n := true, 0
+			for _, ret := range ssau.ReturnsOf(ld) {
+				if !reachAvoidBB(um[0].Block(), ret.Block(), fail, nil) {
+					continue
+				}
+				n++
+				if !ssau.IsNilConst(ssau.ResultValue(ret, errIdx)) || ssau.IsNilConst(ssau.ResultValue(ret, 0)) {
+					good = false
+				}
+			}
+			r.Check(good && n > 0, "O-4", fk+"#well-formed-list-loads", c.P.Pos(um[0].Pos()), "after a successful decode the database is returned with a nil error", "a list that was read and decoded successfully can still be rejected (or returned as nil)")
+		}
+	}
+	// the classifier: decode failures first, then the error chain
+	ck := "errors.NewDatabaseErrorWithContext"
+	opP := cl.Params[0]
+	var parseRet, nfRet []*ssa.Return
+	for _, ret := range ssau.ReturnsOf(cl) {
+		if cc, ok := ssau.Strip(ret.Results[0]).(*ssa.Call); ok {
+			switch {
+			case strings.HasSuffix(ssau.CallName(cc), ".NewDatabaseParseError"):
+				parseRet = append(parseRet, ret)
+			case strings.HasSuffix(ssau.CallName(cc), ".NewDatabaseNotFoundError"):
+				nfRet = append(nfRet, ret)
+			}
+		}
+	}
+	// op == "parse" test
+	var parseTrue, parseFalse map[[2]int]bool
+	for _, iff := range ssau.Ifs(cl) {
+		op, x, y, ok := ssau.CondOf(iff.Cond)
+		if !ok || op != token.EQL {
+			continue
+		}
+		if s, isS := ssau.ConstString(y); isS && s == "parse" && x == ssa.Value(opP) {
+			parseTrue = map[[2]int]bool{{iff.Block().Index, 0}: true}
+			parseFalse = map[[2]int]bool{{iff.Block().Index, 1}: true}
+		}
+	}
+	if parseTrue == nil || len(parseRet) == 0 || len(nfRet) == 0 {
+		r.Bad("O-4", ck+"#shape", c.P.Pos(cl.Pos()), "the classifier has no `op == \"parse\"` test, no parse verdict or no not-found verdict")
+		return
+	}
+	// (a) with op == "parse" only the parse verdict is reachable (cut the false edge: what stays reachable)
+	good := true
+	entry := cl.Blocks[0]
+	for _, ret := range ssau.ReturnsOf(cl) {
+		isParse := false
+		for _, p := range parseRet {
+			if p == ret {
+				isParse = true
+			}
+		}
+		if isParse {
+			continue
+		}
+		// reachable from the entry without taking the false edge of the test
+		// *after* having reached the test: approximate by requiring every path
+		// to a non-parse verdict (other than the nil-cause return) to pass the false edge
+		if reachAvoidBB(entry, ret.Block(), parseFalse, nil) && !c10NilCauseReturn(cl, ret) {
+			good = false
+		}
+	}
+	r.Check(good, "O-4", ck+"#decode-failure-is-parse-error", c.P.Pos(cl.Pos()), "every verdict other than the parse error lies behind op != \"parse\"", "a decode failure (op == \"parse\") can be given a verdict other than the parse error: decoder messages quote file content, so a message test ahead of the operation test misclassifies files that merely mention 'no such file' or 'permission denied'")
+	// (b) the not-found verdict is taken for fs.ErrNotExist by the error chain
+	isOK := false
+	for _, call := range callsTo(cl, "errors.Is") {
+		if g, ok := call.Common().Args[1].(*ssa.UnOp); ok {
+			if gl, ok := g.X.(*ssa.Global); ok && gl.Name() == "ErrNotExist" {
+				// its true edge leads to the not-found verdict
+				for _, ref := range *call.Referrers() {
+					if iff, ok := ref.(*ssa.If); ok {
+						for _, nf := range nfRet {
+							if iff.Block().Succs[0] == nf.Block() || reachAvoidBB(iff.Block().Succs[0], nf.Block(), nil, nil) && !reachAvoidBB(iff.Block().Succs[0], parseRet[0].Block(), nil, nil) {
+								isOK = true
+							}
+						}
+					}
+				}
+			}
+		}
+	}
+	r.Check(isOK, "O-4", ck+"#missing-file-is-not-found", c.P.Pos(cl.Pos()), "errors.Is(cause, fs.ErrNotExist) leads to the not-found verdict", "a read failure that is fs.ErrNotExist is not (any longer) recognised through the error chain: the verdict then depends on the wording of the platform's message")
+}
+
+// c10NilCauseReturn: the return taken when no cause is given at all.
+func c10NilCauseReturn(fn *ssa.Function, ret *ssa.Return) bool {
+	cause := fn.Params[2]
+	succ, _ := nilTests(cause)
+	if len(succ) == 0 {
+		return false
+	}
+	// reachable only through the cause == nil edge
+	return !reachAvoidBB(fn.Blocks[0], ret.Block(), succ, nil)
+}
+
+// c10Termination: O-5.
+func c10Termination(c *Ctx, scope []*ssa.Function) {
+	r := c.R
+	sx := symx.New(c.P.IsRepoFunc)
+	nLoops, nBad := 0, 0
+	for _, fn := range scope {
+		if fn.Synthetic != "" {
+			continue
+		}
+		ranges := map[*ssa.BasicBlock]bool{}
+		for _, l := range ssau.RangeLoops(fn) {
+			ranges[l.Header] = true
+		}
+		var q *interval.Q
+		ord := newOrdinal()
+		// natural loops: a back edge b -> h with h dominating b
+		heads := map[*ssa.BasicBlock]bool{}
+		for _, b := range fn.Blocks {
+			for _, sc := range b.Succs {
+				if sc.Dominates(b) || sc == b {
+					heads[sc] = true
+				}
+			}
+		}
+		var hs []*ssa.BasicBlock
+		for h := range heads {
+			hs = append(hs, h)
+		}
+		sort.Slice(hs, func(i, j int) bool { return hs[i].Index < hs[j].Index })
+		for _, h := range hs {
+			nLoops++
+			key := ord.next(load.FuncKey(fn) + "#loop")
+			if ranges[h] {
+				r.OK("O-5", key, c.P.Pos(loopPos(h)), "range loop: one iteration per element")
+				continue
+			}
+			if q == nil {
+				q = interval.New(sx.Of(fn))
+			}
+			if ok, how := countedLoop(q, h); ok {
+				r.OK("O-5", key, c.P.Pos(loopPos(h)), how)
+				continue
+			}
+			nBad++
+			r.Bad("O-5", key, c.P.Pos(loopPos(h)), "a loop that is neither a range loop nor a counted loop with a counter moving towards a fixed bound: nothing shows that it ends for every input")
+		}
+	}
+	r.Analysed["loops_in_scope"] = nLoops
+	r.Floor("O-5", "loops examined", nLoops, 100)
+	// recursion in the reachable call graph
+	cg := c.P.CallGraph()
+	inScope := map[*ssa.Function]bool{}
+	for _, fn := range scope {
+		inScope[fn] = true
+	}
+	index := map[*ssa.Function]int{}
+	low := map[*ssa.Function]int{}
+	on := map[*ssa.Function]bool{}
+	var st []*ssa.Function
+	n := 0
+	var cyc [][]*ssa.Function
+	var dfs func(fn *ssa.Function)
+	dfs = func(fn *ssa.Function) {
+		n++
+		index[fn], low[fn] = n, n
+		st = append(st, fn)
+		on[fn] = true
+		self := false
+		if node := cg.Nodes[fn]; node != nil {
+			for _, e := range node.Out {
+				cf := e.Callee.Func
+				if !inScope[cf] {
+					continue
+				}
+				if cf == fn {
+					self = true
+				}
+				if index[cf] == 0 {
+					dfs(cf)
+					if low[cf] < low[fn] {
+						low[fn] = low[cf]
+					}
+				} else if on[cf] && index[cf] < low[fn] {
+					low[fn] = index[cf]
+				}
+			}
+		}
+		if low[fn] == index[fn] {
+			var comp []*ssa.Function
+			for {
+				x := st[len(st)-1]
+				st = st[:len(st)-1]
+				on[x] = false
+				comp = append(comp, x)
+				if x == fn {
+					break
+				}
+			}
+			if len(comp) > 1 || self {
+				cyc = append(cyc, comp)
+			}
+		}
+	}
+	for _, fn := range scope {
+		if index[fn] == 0 {
+			dfs(fn)
+		}
+	}
+	for _, comp := range cyc {
+		var names []string
+		for _, f := range comp {
+			names = append(names, load.FuncKey(f))
+		}
+		sort.Strings(names)
+		r.Bad("O-5", "recursion:"+names[0], c.P.Pos(comp[0].Pos()), "recursive calls among "+strings.Join(names, ", ")+": nothing bounds their depth")
+	}
+	if len(cyc) == 0 {
+		r.OK("O-5", "engine#no-recursion", "", fmt.Sprintf("%d reachable functions: the call graph among them is acyclic", len(scope)))
+	}
+}
+
+func loopPos(h *ssa.BasicBlock) token.Pos {
+	for _, in := range h.Instrs {
+		if in.Pos() != token.NoPos {
+			return in.Pos()
+		}
+	}
+	for _, p := range h.Preds {
+		for i := len(p.Instrs) - 1; i >= 0; i-- {
+			if p.Instrs[i].Pos() != token.NoPos {
+				return p.Instrs[i].Pos()
+			}
+		}
+	}
+	return token.NoPos
+}
+
+// countedLoop: the loop headed by h is left through a comparison of a
+// counter that every iteration moves towards the other operand, which the
+// loop does not change.
+func countedLoop(q *interval.Q, h *ssa.BasicBlock) (bool, string) {
+	// exits: blocks of the loop with a successor outside; accept when some
+	// exit condition that every iteration evaluates (the header's, or a block
+	// that dominates all back edges) is a counter test
+	loop := map[*ssa.BasicBlock]bool{h: true}
+	var work []*ssa.BasicBlock
+	for _, p := range h.Preds {
+		if h.Dominates(p) || p == h {
+			work = append(work, p)
+		}
+	}
+	var latches []*ssa.BasicBlock
+	latches = append(latches, work...)
+	for len(work) > 0 {
+		b := work[len(work)-1]
+		work = work[:len(work)-1]
+		if loop[b] {
+			continue
+		}
+		loop[b] = true
+		work = append(work, b.Preds...)
+	}
+	for b := range loop {
+		iff, ok := b.Instrs[len(b.Instrs)-1].(*ssa.If)
+		if !ok {
+			continue
+		}
+		leaves := -1
+		for k, sc := range b.Succs {
+			if !loop[sc] {
+				leaves = k
+			}
+		}
+		if leaves < 0 {
+			continue
+		}
+		// evaluated on every iteration
+		every := true
+		for _, l := range latches {
+			if !(b.Dominates(l) || b == l) {
+				every = false
+			}
+		}
+		if !every {
+			continue
+		}
+		op, x, y, okc := ssau.CondOf(iff.Cond)
+		if !okc {
+			continue
+		}
+		if leaves == 0 {
+			op = ssau.Negate(op) // the loop continues on the false edge
+		}
+		// continue while x op y
+		try := func(cnt, bound ssa.Value, o token.Token) bool {
+			ph, ok := cnt.(*ssa.Phi)
+			if !ok || !loop[ph.Block()] {
+				// the stepped value itself (rangeindex form)
+				if bo, isBo := cnt.(*ssa.BinOp); isBo {
+					ph, ok = bo.X.(*ssa.Phi)
+				}
+				if !ok || ph == nil || !loop[ph.Block()] {
+					return false
+				}
+			}
+			dir := phiDirection(ph, loop)
+			if dir == 0 {
+				return false
+			}
+			// the loop does not change the bound
+			if !loopInvariant(q, loop, bound, 0) {
+				return false
+			}
+			return (dir > 0 && (o == token.LSS || o == token.LEQ || o == token.NEQ)) || (dir < 0 && (o == token.GTR || o == token.GEQ || o == token.NEQ))
+		}
+		if try(x, y, op) || try(y, x, ssau.Flip(op)) {
+			return true, "counted loop: the counter moves towards a bound the loop does not change"
+		}
+	}
+	return false, ""
+}
+
+// loopInvariant: v has the same value on every iteration: defined outside the
+// loop, a constant, a load of a location the loop does not write (by its
+// symx version), or len/min/max/arithmetic of such values.
+func loopInvariant(q *interval.Q, loop map[*ssa.BasicBlock]bool, v ssa.Value, d int) bool {
+	if d > 6 {
+		return false
+	}
+	in, isIn := v.(ssa.Instruction)
+	if !isIn || in.Block() == nil || !loop[in.Block()] {
+		return true
+	}
+	switch x := v.(type) {
+	case *ssa.Call:
+		n := ssau.CallName(x)
+		if n == "builtin.len" || n == "builtin.cap" || n == "builtin.min" || n == "builtin.max" || strings.HasSuffix(n, "/internal/utils.Min") || strings.HasSuffix(n, "/internal/utils.Max") {
+			for _, a := range x.Common().Args {
+				if !loopInvariant(q, loop, a, d+1) {
+					return false
+				}
+			}
+			return true
+		}
+	case *ssa.BinOp:
+		return loopInvariant(q, loop, x.X, d+1) && loopInvariant(q, loop, x.Y, d+1)
+	case *ssa.Convert:
+		return loopInvariant(q, loop, x.X, d+1)
+	case *ssa.UnOp:
+		if x.Op != token.MUL {
+			return false
+		}
+		ver := q.F.Version(x)
+		if jb := q.F.JoinBlock(ver); jb != nil && loop[jb] {
+			return false
+		}
+		if wi := q.F.InstrByID(ver); wi != nil && loop[wi.Block()] {
+			return false
+		}
+		if strings.HasPrefix(ver, "u") {
+			return false
+		}
+		switch a := x.X.(type) {
+		case *ssa.FieldAddr:
+			return loopInvariant(q, loop, a.X, d+1)
+		case *ssa.Alloc, *ssa.Global, *ssa.FreeVar:
+			return true
+		}
+	}
+	return false
+}
+
+// phiDirection: +1 when every in-loop edge of the phi adds a positive
+// constant, -1 when every one subtracts, 0 otherwise.
+func phiDirection(ph *ssa.Phi, loop map[*ssa.BasicBlock]bool) int {
+	dir := 0
+	seen := map[*ssa.Phi]bool{}
+	var walk func(v ssa.Value, d int) int // returns the constant total step, or a sentinel
+	const bad = 1 << 30
+	walk = func(v ssa.Value, d int) int {
+		if v == ssa.Value(ph) {
+			return 0
+		}
+		if d > 6 {
+			return bad
+		}
+		switch x := v.(type) {
+		case *ssa.BinOp:
+			k, ok := ssau.ConstInt(x.Y)
+			if !ok || (x.Op != token.ADD && x.Op != token.SUB) {
+				return bad
+			}
+			b := walk(x.X, d+1)
+			if b == bad {
+				return bad
+			}
+			if x.Op == token.SUB {
+				return b - int(k)
+			}
+			return b + int(k)
+		case *ssa.Phi:
+			if seen[x] {
+				return bad
+			}
+			seen[x] = true
+			// all edges must agree in sign; return the smallest magnitude
+			res := bad
+			for _, e := range x.Edges {
+				s := walk(e, d+1)
+				if s == bad {
+					return bad
+				}
+				if res == bad || abs(s) < abs(res) {
+					if res != bad && (s > 0) != (res > 0) {
+						return bad
+					}
+					res = s
+				}
+			}
+			return res
+		}
+		return bad
+	}
+	for i, e := range ph.Edges {
+		if !loop[ph.Block().Preds[i]] {
+			continue
+		}
+		s := walk(e, 0)
+		if s == bad || s == 0 {
+			return 0
+		}
+		if dir != 0 && (s > 0) != (dir > 0) {
+			return 0
+		}
+		if s > 0 {
+			dir = 1
+		} else {
+			dir = -1
+		}
+	}
+	return dir
+}
+
+func abs(x int) int {
+	if x < 0 {
+		return -x
+	}
+	return x
 }
